@@ -1,6 +1,7 @@
 """Helpers of area `conc`: the deterministic-scheduler runs of C17 and the threads half of C06.
 
-C17  Spec lines for harness/conc/sched.c (the REAL library under a scheduler that owns every lock operation and yield point),
+C17  Spec lines for harness/conc/sched.c (the REAL library under a scheduler that owns every lock operation, yield point and
+     table use - the hook soxr_verif_table_use at the first dereference of the shared tables inside rdft/cdft),
      the pipeline  sched | soxr_conc  (the compiled Lean model replays every event on the `fire` the theorems quantify over),
      and the classification of what the real-code monitors saw.
 C06  clips_threads(ctx, broken): the threads clause of C06 (clip counter = sum of the per-channel counts under OpenMP) — Lean
@@ -38,6 +39,7 @@ JOBSETS = {
     "cr64-grow":     ("Q:5:50:3:2:400+Q:6:50:1:3:400/Q:6:50:2:1:600", 0, 0, "cr64, growth + steady state"),
     "mixed":         ("Q:4:50:2:1:600+Q:6:50:1:3:400/Q:6:50:1:2:500+Q:4:50:1:2:500", 0, 0, "cr32 and cr64 jobs interleaved: both caches in one run"),
     "phase-cr32":    ("Q:4:0:2:1:600/Q:4:25:1:2:500", 0, 0, "minimum / intermediate phase on cr32: filter design through the double cache, streaming through the float cache"),
+    "phase-vs-grow": ("Q:4:25:2:1:600/Q:6:0:1:3:500", 0, 0, "one thread designs an intermediate-phase filter (four transforms of one length through the double cache) while the other grows the same cache beyond it (minimum-phase VHQ design)"),
     "phase-cr64":    ("Q:6:0:3:2:500/Q:6:75:1:2:500", 0, 0, "non-linear phase on cr64"),
     "phase-simd32":  ("Q:4:0:2:1:600/Q:4:25:1:2:500", 1, 0, "non-linear phase on the SIMD float engine (pffft streaming, shared double cache for the design)"),
     "phase-simd64":  ("Q:6:0:3:2:500/Q:6:100:1:2:500", 0, 1, "non-linear phase on the SIMD double engine"),
@@ -46,7 +48,8 @@ JOBSETS = {
     "three-mixed":   ("Q:4:50:2:1:600+Q:6:50:1:3:400/Q:6:0:1:2:500/V:1500:800", 0, 0, "three threads: cr32, cr64, non-linear phase, VR"),
     "three-vr":      ("V:1500:800/V:700:600/V:2500:700+Q:4:25:3:2:400", 0, 0, "three threads through vr_init, then a phase design"),
 }
-QUICK_SETS = ["cr32-pair", "cr32-steady", "cr32-grow", "cr64-pair", "mixed", "phase-cr32", "phase-simd32", "vr", "three-cr32", "three-mixed"]
+QUICK_SETS = ["cr32-pair", "cr32-steady", "cr32-grow", "cr64-pair", "mixed", "phase-cr32", "phase-vs-grow", "phase-simd32", "vr", "three-cr32",
+              "three-mixed"]
 
 
 def nthreads(jobs):
@@ -185,7 +188,9 @@ def run_all(exe, specs, chunk=150, keep_trace=False):
 
 # what a late second initialisation (locks re-created, FFT_LEN reset under running threads) can lead to on the same cache
 F9_CONSEQUENCES = {"SECOND-INIT-ENTRY", "REINIT", "REINIT-HELD", "RESET", "RELEASE-NOT-HELD", "READ-DURING-REBUILD", "TWO-REBUILDERS",
-                   "REBUILD-WITHOUT-GROWTH", "TABLE-WRITE-BY-NON-WRITER", "FFTLEN-WRITE-BY-NON-WRITER", "USE-UNINIT", "DEADLOCK"}
+                   "REBUILD-WITHOUT-GROWTH", "TABLE-WRITE-BY-NON-WRITER", "FFTLEN-WRITE-BY-NON-WRITER", "USE-UNINIT", "DEADLOCK",
+                   "TABLE-USE-DURING-REBUILD"}
+# never a consequence of F9 (the harness's own bracket bookkeeping is untouched by a re-initialisation): TABLE-USE-OUTSIDE-LOCK
 
 
 def viol_cache(kind, text):
@@ -213,8 +218,9 @@ def classify(run):
     if mo is None:
         vio.append(("MODEL-SILENT", "soxr_conc printed no verdict for this run"))
         return vio, known
+    reject = None
     if not mo["ok"]:
-        vio.append(("REJECT", "the model cannot take a step the real code took: " + mo["why"]))
+        reject = ("REJECT", "the model cannot take a step the real code took: " + mo["why"])
     # what the model saw (on a REJECT: up to the rejected event; later monitor hits are judged by the races seen until then)
     raced = {c: mo["c%d" % c]["racedAt"] for c in (0, 1) if mo["c%d" % c]["raced"] > 0}
     vr_raced_at = mo["vr"]["racedAt"] if mo["vr"]["raced"] > 0 else 0
@@ -230,6 +236,17 @@ def classify(run):
     if sp.get("warm") and raced:
         vio.append(("INIT-AFTER-INIT", "initialiser entered in a run that started after a complete initialisation"))
         raced = {}
+    if reject:
+        # One excuse, and only inside the known finding: after a raced initialisation has shrunk the tables under a reader, that reader's
+        # transform rebuilds them in place (`makewt` beyond the re-allocated block: monitor TABLE-WRITE-BY-NON-WRITER) - a heap overflow,
+        # undefined behaviour that no model follows.  A REJECT on that cache at or after that hit belongs to F9; every other REJECT stands.
+        m = re.match(r"event=(\d+) \[E \d+ (\d) ", mo["why"])
+        excused = False
+        if m:
+            rev, rc = int(m.group(1)), int(m.group(2))
+            excused = rc in raced and raced[rc] <= rev and any(
+                k == "TABLE-WRITE-BY-NON-WRITER" and viol_cache(k, t) == rc and e + 1 <= rev for e, k, t in run["viol"])
+        (known if excused else vio).append(reject if not excused else ("REJECT-AFTER-HEAP-OVERFLOW", reject[1]))
     any_raced = bool(raced)
     for ev, kind, text in run["viol"]:
         if kind.startswith("VR-"):
